@@ -10,6 +10,7 @@ CONSTANTS
   BaseAtIH = TRUE
   Alias = TRUE
   MarksDurable = FALSE
+  SeedDataFromHeader = FALSE
   Rec = FALSE
 INVARIANT Finish
 POSTCONDITION Consumed
